@@ -4,7 +4,7 @@ import re
 from .. import common, gen, trees, parsing
 
 LEVEL = "proof"
-EXTRA_LEAN_MODULES = ["Luqum.Props.GenPrint"]   # __str__ translated from the source (tools/pysym.py)
+EXTRA_LEAN_MODULES = ["Luqum.Props.GenPrint", "Luqum.Props.GenGlue"]   # __str__ translated from the source (tools/pysym.py)
 RULE = ("parsed queries (all constructs, nesting <= 5, lengths below and above the width) x indent in {0,1,2,4,8} x "
         "max_len in {-5,0,1,10,20,40,80,200} x inline_ops; a share of programmatic trees only for the "
         "model/implementation comparison. non-trivial = the output has more than one line or the query has an "
